@@ -58,6 +58,17 @@ RepFaithfulP  == Done => \A i, j \in 1..N : dp[i] = dp[j] => i = j
 Compression   == Done => \A sh \in SubShells : \A i \in 1..N : (i \in pres[sh]) <=> IsOrthogonal(DSub(sh, dp[i], dd[i]))
 SubHom        == Done => \A sh \in SubShells : \A i, j \in pres[sh] :
                              MatMul(DSub(sh, dp[i], dd[i]), DSub(sh, dp[j], dd[j])) = DSub(sh, dp[table[i][j]], dd[table[i][j]])
+(* local frames: orbitals given in a frame b (rows = local axes, b in the group) transform with the matrix of b R b^T, which is the
+   representation conjugated by D(b); a common frame therefore leaves the composition law intact.  Variant "noframe" ignores
+   the frame (valid only for b = 1 or b commuting with R) and must violate RepFrame.  Composite symbols 'a;b' are the
+   block-diagonal sums of their parts in the same frames (nothing to state beyond the parts). *)
+InvIdx(b) == CHOOSE j \in 1..N : table[b][j] = 1
+InFrame(b, i) == IF Variant = "noframe" THEN i ELSE table[table[b][i]][InvIdx(b)]
+Frames == {b \in 1..N : b <= 8}
+RepFrame      == Done => \A b \in Frames : \A i \in 1..N :
+                    /\ dp[InFrame(b, i)] = MatMul(MatMul(dp[b], dp[i]), Transpose(dp[b]))
+                    /\ dd[InFrame(b, i)] = MatMul(MatMul(dd[b], dd[i]), Transpose(dd[b]))
+                    /\ \A sh \in AllShells : (i \in pres[sh] /\ b \in pres[sh]) => table[table[b][i]][InvIdx(b)] \in pres[sh]
 Stabiliser    == Done => \A sh \in AllShells : 1 \in pres[sh] /\ \A i, j \in pres[sh] : table[i][j] \in pres[sh]
 FullShells    == Done => \A sh \in {"s", "p", "d", "f", "sp3"} : pres[sh] = 1..N
 =============================================================================
